@@ -24,6 +24,10 @@ thread_local! {
     static CUR: Cell<Option<usize>> = const { Cell::new(None) };
 }
 
+/// Decision points per run after which a run is declared stuck (terminating runs of the small
+/// programs used here need a few hundred).
+pub const DECISION_LIMIT: usize = 20_000;
+
 #[derive(Clone, Copy, Debug, PartialEq, Eq)]
 enum WState {
     NotStarted,
@@ -57,6 +61,8 @@ pub struct RunOutcome {
     pub events: Vec<(usize, String)>,
     pub decisions: Vec<Decision>,
     pub deadlock: Option<String>,
+    /// a run took more decisions than any terminating program of this size can need
+    pub livelock: Option<String>,
     pub diverged: bool,
     pub watchdog: bool,
     pub hook_findings: Vec<(String, String)>,
@@ -270,6 +276,18 @@ impl Sched {
                 let d = Self::describe_deadlock(&g);
                 g.out.deadlock = Some(d);
             }
+            g.aborted = true;
+            self.cv.notify_all();
+            return;
+        }
+        if g.step > DECISION_LIMIT {
+            // bounded progress: the programs driven here finish within a few hundred decisions
+            let tail: Vec<String> =
+                g.out.events.iter().rev().take(12).rev().map(|(w, e)| format!("w{w} {e}")).collect();
+            g.out.livelock = Some(format!(
+                "more than {DECISION_LIMIT} decision points without all workers finishing; worker {w} is still running; last events: {}",
+                tail.join(", ")
+            ));
             g.aborted = true;
             self.cv.notify_all();
             return;
@@ -557,7 +575,7 @@ pub fn run(
             if all_done {
                 break;
             }
-            if g.out.deadlock.is_some() {
+            if g.out.deadlock.is_some() || g.out.livelock.is_some() {
                 break;
             }
         }
@@ -574,7 +592,7 @@ pub fn run(
         let mut g = s.m.lock().unwrap();
         g.active = false;
         g.monitor = None;
-        let dead = g.out.deadlock.is_some() || g.out.watchdog;
+        let dead = g.out.deadlock.is_some() || g.out.livelock.is_some() || g.out.watchdog;
         (std::mem::take(&mut g.out), dead)
     };
     if !dead {
